@@ -1825,6 +1825,11 @@ impl Service {
     }
 
     /// `handle_ip_vote_from_pong`, the function the PONG branch of `handle_rpc_response` calls.
+    /// `Service::send_event`.
+    pub(crate) fn verif_send_event(&mut self, event: Event) {
+        self.send_event(event)
+    }
+
     pub(crate) fn verif_handle_ip_vote_from_pong(&mut self, node_id: NodeId, socket: SocketAddr) {
         self.handle_ip_vote_from_pong(node_id, socket);
     }
